@@ -16,6 +16,8 @@ AS = U + "array_string::ArrayString::<N>"
 def _apply(iv, fc, x):
     """restrict interval iv of term x by comparison fact fc (x vs constant)"""
     lo, hi = iv
+    if len(fc) != 3:
+        return iv           # a switch-on-value / discriminant fact: not a comparison of x with a constant
     op, a, b = fc
     if a is x and is_const(b):
         c = const_val(b)
